@@ -311,6 +311,55 @@ func runC12(c *core.Ctx) {
 	// one pooled buffer handed to two owners is written by both
 	c.Rule("R9", "a pooled buffer has one owner: not recycled while queued, not recycled twice (shared with C10-R1/R4/R6)", 2)
 	importObligations(c, runC10, "R9", func(o *core.Obligation) bool { return o.Rule == "R1" || o.Rule == "R4" || o.Rule == "R6" })
+	// concurrent calls of one operation may share their argument slices (`opts := ...; go Connect(url, opts...)`)
+	c.Rule("R10", "a variadic parameter is the caller's slice: never appended to in place or written through", 5)
+	for _, fn := range p.Funcs {
+		if fn.Parent() != nil || !fn.Signature.Variadic() || len(fn.Params) == 0 {
+			continue
+		}
+		vp := fn.Params[len(fn.Params)-1]
+		c.Instance("R10")
+		derives := func(v ssa.Value) bool {
+			for d := 0; d < 6; d++ {
+				v = core.Unwrap(v)
+				if v == ssa.Value(vp) {
+					return true
+				}
+				switch x := v.(type) {
+				case *ssa.Slice:
+					v = x.X
+				case *ssa.Convert:
+					v = x.X
+				default:
+					return false
+				}
+			}
+			return false
+		}
+		var bad ssa.Instruction
+		why := ""
+		for _, f := range core.WithAnon(fn) {
+			core.AllInstrs(f, func(in ssa.Instruction) {
+				if bad != nil {
+					return
+				}
+				if args, ok := core.IsBuiltinCall(in, "append"); ok && len(args) > 0 && derives(args[0]) {
+					bad, why = in, "appends to it in place (spare capacity of the caller's backing array is written: two concurrent calls sharing one argument slice race and see each other's element)"
+				}
+				if st, ok := in.(*ssa.Store); ok {
+					if ia, ok := st.Addr.(*ssa.IndexAddr); ok && derives(ia.X) {
+						bad, why = in, "writes an element of it"
+					}
+				}
+			})
+		}
+		name := "variadic/" + p.QName(fn)
+		if bad != nil {
+			c.Bad("R10", name, p.InstrPos(bad), "the function receives its variadic arguments as the caller's slice and "+why)
+		} else {
+			c.OK("R10", name, p.Pos(fn.Pos()), "the variadic slice is only read")
+		}
+	}
 }
 
 func rw(w bool) string {
